@@ -6,6 +6,7 @@ import foolscap.promise as pm
 import foolscap.observer as obs
 from twisted.python.failure import Failure
 from twisted.internet import defer
+import functools
 
 
 def diffwin(a, b, w=6):
@@ -47,6 +48,124 @@ def exc_id(e):
     if e.args and isinstance(e.args[0], int):
         return e.args[0]
     return -1
+
+
+# =====================================================================================
+#   WHAT KIND OF OBJECT the callable is.  eventually(cb, *args, **kwargs) promises to CALL cb later -- nothing else: the
+#   queue may not depend on cb being a function (name, qualified name, module, code object, repr, truth value, equality,
+#   hash).  Every script / observer / target method can be wrapped as one of these kinds; the behaviour of the call is
+#   the same for all of them, so the model (polymorphic in the callable) and the expected trace do not change.
+#   (seeded change C17-r6s1: the except clause of _turn named the callable with fullyQualifiedName(cb), which raises for
+#   functools.partial objects and for instances with __call__.)
+# =====================================================================================
+class Hostile(Exception):
+    """raised by the opaque kinds when anything but a call is attempted on them"""
+
+
+def _hostile(*a, **kw):
+    raise Hostile("the object was inspected instead of being called / passed on")
+
+
+class _CallableInstance(object):
+    """an instance with __call__: no __name__ / __qualname__ / __code__"""
+    def __init__(self, f):
+        self.f = f
+
+    def __call__(self, *a, **kw):
+        return self.f(*a, **kw)
+
+
+class _OpaqueCallable(object):
+    """can be called and nothing else: no attributes, repr / str / format / truth value / len / == / != raise, unhashable"""
+    __slots__ = ("_f",)
+    __hash__ = None
+
+    def __init__(self, f):
+        object.__setattr__(self, "_f", f)
+
+    def __call__(self, *a, **kw):
+        return object.__getattribute__(self, "_f")(*a, **kw)
+
+    def __getattr__(self, name):
+        raise Hostile("attribute %s of a callable was read" % name)
+    __repr__ = __str__ = __format__ = __bool__ = __len__ = __eq__ = __ne__ = __iter__ = _hostile
+
+
+CALLABLE_KINDS = ["function", "lambda", "bound method", "functools.partial", "functools.partial that binds the arguments",
+                  "instance with __call__", "opaque instance with __call__ (no attributes, repr/bool/==/hash fail)",
+                  "class (the call constructs an instance)", "function whose names contain format characters",
+                  "function object that is submitted again and again (one object, equal arguments: every submission counts)"]
+N_CALLABLE_KINDS = len(CALLABLE_KINDS)
+SHARED_KIND = 9         # handled by EvRun (one function object per run, dispatching to the scripts in submission order)
+
+
+def as_kind(f, kind, args=(), kwargs=None):
+    """-> (callable of that kind which behaves like f, args, kwargs to submit with it)"""
+    kwargs = dict(kwargs or {})
+    args = tuple(args)
+    if kind == 0 or kind == SHARED_KIND:
+        return f, args, kwargs
+    if kind == 1:
+        return (lambda *a, **kw: f(*a, **kw)), args, kwargs
+    if kind == 2:
+        class Job(object):
+            def go(self, *a, **kw):
+                return f(*a, **kw)
+        return Job().go, args, kwargs
+    if kind == 3:
+        return functools.partial(f), args, kwargs
+    if kind == 4:
+        return functools.partial(f, *args, **kwargs), (), {}
+    if kind == 5:
+        return _CallableInstance(f), args, kwargs
+    if kind == 6:
+        return _OpaqueCallable(f), args, kwargs
+    if kind == 7:
+        class Ctor(object):
+            def __init__(self, *a, **kw):
+                f(*a, **kw)
+        return Ctor, args, kwargs
+    if kind == 8:
+        def g(*a, **kw):
+            return f(*a, **kw)
+        g.__name__ = "100%s"
+        g.__qualname__ = "%(cb)s.{0}.%d%%"
+        g.__module__ = "%s"
+        return g, args, kwargs
+    raise ValueError(kind)
+
+
+class _OpaqueValue(object):
+    """a value that can only be passed on"""
+    __slots__ = ()
+    __hash__ = None
+
+    def __getattr__(self, name):
+        raise Hostile("attribute %s of a value was read" % name)
+    __repr__ = __str__ = __format__ = __bool__ = __len__ = __eq__ = __ne__ = __iter__ = _hostile
+
+
+# the value given to fireEventually(): 0 a tuple naming the request; 1 no argument at all (the Deferred fires with None);
+# 2.. values that are false / empty / cannot be inspected -- the Deferred must fire with that very object
+FIRE_VALUE_KINDS = ["tuple", "no argument", "None", "0", "False", "empty string", "empty list", "empty tuple", "opaque object"]
+N_FIRE_VALUE_KINDS = len(FIRE_VALUE_KINDS)
+
+
+def fire_value(vk, i):
+    """-> (positional arguments of fireEventually, the object its Deferred must fire with)"""
+    if vk == 0:
+        v = ("val", i)
+    elif vk == 1:
+        return (), None
+    else:
+        v = [None, 0, False, "", [], (), _OpaqueValue()][vk - 2]
+    return (v,), v
+
+
+def same_value(got, want):
+    if want is None or isinstance(want, (list, _OpaqueValue)):
+        return got is want
+    return type(got) is type(want) and got == want
 
 
 def fresh_queue():
@@ -104,6 +223,9 @@ class EvRun:
         self.flush_waiting = [] # request numbers of the deferred requests not notified yet, oldest first
         self.fire_vals = {}
         self.cbargs = {}
+        self.last_started = None
+        self.shared_pending = []    # scripts submitted through the one shared function object, oldest first
+        self.kind_of = {}       # id -> what kind of object was submitted (callable kind / fireEventually value kind)
 
     def bad(self, sig, text):
         self.viol.append((sig, text))
@@ -120,11 +242,12 @@ class EvRun:
             self.bad("oracle/order", "callable %d started, but the next one in submission order is %r (submitted vs started: %s)"
                      % (i, self.subs[nxt] if nxt < len(self.subs) else None, diffwin(self.subs, self.rans + [i])))
         self.rans.append(i)
+        self.last_started = i
         if self.sub_turn.get(i) is not None and self.sub_turn[i] == self.turn_no:
             self.bad("oracle/reentrant-ran-in-same-turn", "callable %d was submitted and run in the same turn" % i)
 
     def make(self, script):
-        i, acts, raises = script
+        i, acts, raises = script[:3]
 
         def cb(*a, **kw):
             if (tuple(a), kw) != self.cbargs.get(i, ((), {})):
@@ -141,6 +264,14 @@ class EvRun:
             finally:
                 self.depth -= 1
         return cb
+
+    def shared(self, *a, **kw):
+        """ONE function object for every script of SHARED_KIND: each call stands for the oldest such submission that has
+        not run yet (a queue that coalesces equal entries, or keeps them in a set / dict, calls it too rarely)"""
+        if not self.shared_pending:
+            self.bad("oracle/ran-twice", "the shared function object was called more often than it was submitted")
+            return None
+        return self.make(self.shared_pending.pop(0))(*a, **kw)
 
     def submit_mark(self, i):
         self.trace.append([1, i])
@@ -159,8 +290,15 @@ class EvRun:
             self.submit_mark(s[0])
             self.in_submit = s[0]
             r = None
+            # s[3] (optional): what kind of object is submitted (CALLABLE_KINDS); the model does not see it
+            if len(s) > 3 and s[3] == SHARED_KIND:
+                self.shared_pending.append(s)
+                cb, sp, sk = self.shared, tuple(xp), dict(xk)
+            else:
+                cb, sp, sk = as_kind(self.make(s), s[3] if len(s) > 3 else 0, xp, xk)
+            self.kind_of[s[0]] = "a " + CALLABLE_KINDS[s[3] if len(s) > 3 else 0]
             try:
-                r = ev.eventually(self.make(s), *xp, **xk)
+                r = ev.eventually(cb, *sp, **sk)
             except BaseException as e:   # noqa -- an exception coming out of eventually() is an observation
                 self.escaped_from_submit(s[0], e)
             finally:
@@ -172,8 +310,10 @@ class EvRun:
             self.submit_mark(i)
             self.in_submit = i
             d = None
+            fargs, fwant = fire_value(a[2] if len(a) > 2 else 0, i)     # a[2] (optional): FIRE_VALUE_KINDS
+            self.kind_of[i] = "the Deferred of fireEventually(%s)" % FIRE_VALUE_KINDS[a[2] if len(a) > 2 else 0]
             try:
-                d = ev.fireEventually(("val", i))
+                d = ev.fireEventually(*fargs)
             except BaseException as e:   # noqa
                 self.escaped_from_submit(i, e)
             finally:
@@ -183,10 +323,11 @@ class EvRun:
             if d.called:
                 self.bad("oracle/ran-synchronously", "fireEventually's Deferred %d had fired when it was returned" % i)
 
-            def fired(v, i=i):
+            def fired(v, i=i, vk=a[2] if len(a) > 2 else 0):
                 self.started(i)
-                if v != ("val", i):
-                    self.bad("oracle/fire-value", "fireEventually(%r) fired with %r" % (("val", i), v))
+                if not same_value(v, fwant):
+                    self.bad("oracle/fire-value", "the Deferred of fireEventually(%s) [request %d] did not fire with the value "
+                             "it was given (got an object of type %s)" % (FIRE_VALUE_KINDS[vk], i, type(v).__name__))
             d.addCallback(fired)
         elif a[0] == "flush":
             fid = a[1]
@@ -248,7 +389,8 @@ class EvRun:
         if exc is not None:
             self.trace.append([4, exc_id(exc)])
             self.depth = 0
-            self.bad("oracle/exception-escaped-turn", "an exception raised by a callable left _turn: %r" % (exc,))
+            self.bad("oracle/exception-escaped-turn", "an exception raised by a callable left _turn: %r; the last callable started "
+                     "was %r (%s)" % (exc, self.last_started, self.kind_of.get(self.last_started, "?")))
         return ran
 
     def state(self):
@@ -353,6 +495,34 @@ class Target(object):
         return a[0].run.invoked(a[0], a[1], a[2], tuple(a[3:]), kw)
 
 
+class _DynTarget(Target):
+    """the method is not a function of the class: reading the attribute builds a functools.partial each time (proxy style)"""
+    m = property(lambda self: functools.partial(Target.m, self))
+
+
+class _InstAttrTarget(Target):
+    """the method is an instance attribute holding an instance with __call__"""
+    def __init__(self, run, v):
+        Target.__init__(self, run, v)
+        self.m = _CallableInstance(functools.partial(Target.m, self))
+
+
+class _OpaqueTarget(Target):
+    """an ordinary method, but the object itself cannot be printed, compared, hashed or tested for truth"""
+    __hash__ = None
+    __repr__ = __str__ = __format__ = __bool__ = __len__ = __eq__ = __ne__ = __iter__ = _hostile
+
+
+TARGET_KINDS = [Target, _DynTarget, _InstAttrTarget, _OpaqueTarget]
+TARGET_KIND_NAMES = ["plain method", "method built by a property (functools.partial)", "method = instance attribute with __call__",
+                     "object without repr / == / hash / truth value"]
+
+
+def make_target(run, x):
+    """x = ["val", v] or ["val", v, target kind]"""
+    return TARGET_KINDS[x[2] if len(x) > 2 else 0](run, x[1])
+
+
 # measured, not proved: _resolve2 is never entered on a promise that is already NEAR/BROKEN (the model records such an
 # entry as a crash that leaves the promise alone)
 _r2_hits = []
@@ -426,9 +596,9 @@ class PrRun:
         if self.in_op:
             self.bad("oracle/delivered-synchronously", "message %d was delivered to promise %d's target before the send returned / "
                      "outside a reactor turn" % (mid, p))
-        if beh[0] == "ret":
+        if beh[0] == "ret":              # ["ret", v] or ["ret", v, kind of object returned (TARGET_KINDS)]
             self.returned[mid] = ("val", beh[1])
-            return Target(self, beh[1])
+            return make_target(self, beh)
         if beh[0] == "raise":
             self.returned[mid] = ("fail", beh[1])
             raise (BoomBase if beh[1] % 3 == 0 else Boom)(beh[1])
@@ -463,7 +633,7 @@ class PrRun:
         if k == "fire":
             mid, x = o[1], o[2]
             if x[0] == "val":
-                arg = Target(self, x[1])
+                arg = make_target(self, x)
             elif x[0] == "fail":
                 arg = Failure(Boom(x[1]))
             else:
@@ -522,6 +692,7 @@ class PrRun:
             elif k == "when":
                 w, kind = o[2], o[3]
                 xp, xk = (o[4][0], o[4][1]) if len(o) > 4 and kind != "when" else ([], {})
+                ckind = o[5] if len(o) > 5 else 0        # what kind of object the observer's callback is (CALLABLE_KINDS)
                 self.watch.setdefault(p, []).append((w, kind))
 
                 def told(*a, **kw):
@@ -533,6 +704,8 @@ class PrRun:
                     self.trace.append([3, p, w, c[0], c[1]])
                     self.seen.setdefault(w, []).append(c)
                     return None
+                if ckind:       # (a partial cannot bind the extras in front of the outcome: kind 4 is run as kind 3)
+                    told = as_kind(told, 3 if ckind == 4 else ckind)[0]
                 try:
                     if kind == "when":
                         pm.when(prom).addBoth(told)
@@ -548,7 +721,7 @@ class PrRun:
             elif k == "resolve":
                 x = o[2]
                 if x[0] == "val":
-                    arg = Target(self, x[1])
+                    arg = make_target(self, x)
                 elif x[0] == "fail":
                     arg = Failure(Boom(x[1]))
                 else:
